@@ -175,6 +175,36 @@ CLAIMS = {
              "in the lemmas. Trusted: " + TB,
         technique="contract-based deductive verification (path-complete symbolic execution of node_to_ref/expand_ref/_format_cell_range + "
                   "quantified resolver lemmas) + bounded print/resolve-back stand-in (mixed)"),
+    "C01": dict(
+        category="other", design="DESIGN.md section 7 C01",
+        text="Mixed. Proved (contract-based, real cell.py/model.py/document.py): _from_value picks the cell class by type with bool before "
+             "int and raises ValueError otherwise; _pack_decimal128/_unpack_decimal128 byte-level contracts (digit loop by invariant, "
+             "byte loop unrolled to the operand width with the unwinding assertion) and lemmas D128-ROUNDTRIP/D128-VALUE: the reader "
+             "recovers sign, mantissa and exponent exactly and returns the correctly rounded value of the stored decimal, i.e. x under "
+             "A-REPR - for every double; payload transport through the cell record (C04 encoder/decoder contracts re-verified); text "
+             "round trip through the string list for every string (C06 DataLists contracts re-verified); lemmas DT-ROUNDTRIP / "
+             "DT-WHOLE-SECONDS / DT-DOMAIN in mixed integer/real arithmetic for dates and durations under A-DT; growth on out-of-range "
+             "writes (C11 contract re-verified). The statement is end to end (write, save, reopen): that composition through "
+             "recalculate_table_data, the tile writer and the container is a bounded stand-in (1M codec values, 6 types x 300 values x "
+             "positions incl. beyond the table), so the level is not 'proof'.",
+        note="Assumes A-REPR (shortest spelling; correctly rounded int/int division and float(int)), A-DT (CPython datetime arithmetic), "
+             "sigfig.round uninterpreted. One genuine defect repaired: fix: commit 5fd0efc (decimal128 codec went through float log/pow/"
+             "division; 12, 50, 52, 0.12 came back one ulp off). Trusted: " + TB,
+        technique="contract-based deductive verification (loop invariant + width-bounded unrolling, LIA/LRA lemmas over the two codec "
+                  "postconditions) + bounded write/save/reopen stand-in (mixed)"),
+    "C02": dict(
+        category="other", design="DESIGN.md section 7 C02",
+        text="Mixed. Proved (contract-based, real cell.py/model.py, re-verified in this check): the cell-record decoder for all 2^21 flag "
+             "words and the encoder for every storable kind with the lemmas ROUNDTRIP and DISJOINT - every optional reference the "
+             "decoder reads (style, formats, formula, control, rich-text ids) is re-emitted at the slot it is read from; the decimal128 "
+             "codec contracts and lemmas (a float read from a record is written back as a decimal whose correctly rounded value is that "
+             "float); the string-list contracts (reset, re-keying, lookup). The statement quantifies over whole documents and open/save "
+             "cycles: bounded stand-in over the fixtures and built documents, two cycles, with and without read-only accessors called "
+             "before saving, comparing class/value/formula/formatted value/merge state/bullets/hyperlinks per cell.",
+        note="Assumptions of C04/C01/C06 apply. Genuine defects repaired: fix: commits d484052 (rich-text id written twice), 5fd0efc "
+             "(decimal128), 85673dd (reading cell.style marked it changed; save crashed on gradient backgrounds). Trusted: " + TB,
+        technique="contract-based deductive verification of the record/codec/string-list kernels + bounded whole-document re-save "
+                  "stand-in (mixed)"),
 }
 NA_REASON = "check not built yet (build in progress; see DESIGN.md section 7 for the plan)"
 
